@@ -565,6 +565,16 @@ def run_l1(prop, tier):
         r = apalache_inductive(os.path.join(SPEC, "apalache", "IndexInd.tla"))
         log("[L1] apalache IndexInd inductive ok=%s %.0fs" % (r["ok"], r["wall_s"]))
         out.append(r)
+    if tier == "thorough" and prop in ("C06", "C12"):
+        # unbounded number of offered items: the chunked top-k machine never cuts away anything better than what it keeps
+        r = apalache_inductive(os.path.join(SPEC, "apalache", "LimitSortInd.tla"))
+        log("[L1] apalache LimitSortInd inductive ok=%s %.0fs" % (r["ok"], r["wall_s"]))
+        out.append(r)
+    if tier == "thorough" and prop in ("C10", "C12"):
+        # histories of any length: a cached top-rated list is a top list of the records held now, for the limit it was made with
+        r = apalache_inductive(os.path.join(SPEC, "apalache", "StoreCacheInd.tla"))
+        log("[L1] apalache StoreCacheInd inductive ok=%s %.0fs" % (r["ok"], r["wall_s"]))
+        out.append(r)
     for module, cfg, workers in L1.get(prop, {}).get(tier, []):
         r = mc_cached(module, cfg, "%s_%s" % (prop, cfg.replace(".cfg", "")), workers=workers, timeout=3000)
         log("[L1] %s/%s states=%d ok=%s cached=%s %.0fs" % (module, cfg, r["states"], r["ok"], r.get("cached"), r.get("wall_s", 0)))
